@@ -68,9 +68,18 @@ class DataFrame(Entity, DataSet):
             new_da.append(row_tuple)
         farr = np.ascontiguousarray(new_da, dtype=dt)
         n_rows = self.shape[0]
+        old_rows = self._h5group.group['data'][:]
         del self._h5group.group['data']
-        self._h5group.create_dataset("data", (n_rows,), dt)
-        self.write_direct(farr)
+        try:
+            self._h5group.create_dataset("data", (n_rows,), dt)
+            self.write_direct(farr)
+        except Exception:
+            # the new column was refused: put the table back as it was
+            if 'data' in self._h5group.group:
+                del self._h5group.group['data']
+            self._h5group.create_dataset("data", (n_rows,), old_rows.dtype)
+            self.write_direct(old_rows)
+            raise
         units = self._h5group.get_attr("units")
         if units is not None:
             # the new column has no unit yet: keep one entry per column
